@@ -18,13 +18,15 @@ ALTS = ["-", "77", "0"]
 CUSTOMS = ["-", "n", "v55", "r56", "Q57", "In", "Iv58"]
 # __conform__ shapes beyond a bound method: raising TypeError from its body (T), a plain function stored on the
 # instance (i...), the object being a class whose unbound __conform__ cannot be called with the interface alone (U)
-CONFS2 = ["T14", "in", "iv22", "ir15", "iT16", "iQ17", "U", "K"]
+CONFS2 = ["T14", "in", "iv22", "ir15", "iT16", "iQ17", "U", "K",
+          # the adapted object is a class whose __conform__ is callable on the class itself: classmethod (k), staticmethod (s), metaclass method (m)
+          "kn", "kv23", "kr18", "kT19", "sn", "sv24", "sr20", "mn", "mv25", "mQ26"]
 
 
 def normcf(cf):
     if cf in ("U", "K"):
         return "a"
-    if cf[0] == "i":
+    if cf[0] in "iksm":
         cf = cf[1:]
     return "r" + cf[1:] if cf[0] == "T" else cf
 
